@@ -275,7 +275,7 @@ func (p *Prog) Global(pkg *ssa.Package, name string) *ssa.Global {
 	g, _ := pkg.Members[name].(*ssa.Global)
 	if g == nil {
 		if o := p.canon["global|"+pkgShort(pkg.Pkg)+"||"+name]; o != nil {
-			g, _ = pkg.Members[nm(o)].(*ssa.Global)
+			g, _ = pkg.Members[o.Name()].(*ssa.Global) // (the tree's own name, not the canonical one)
 		}
 	}
 	return g
